@@ -66,6 +66,17 @@ static void compare(const Case &c, bool informational = false) {
 		violation("C19:printf:assert:" + c.key, strf("printf_format(\"%s\") stopped at a library assertion (%s) on a directive ISO C defines; glibc prints \"%s\"", c.fmt.c_str(), fr.panic.c_str(), exp.substr(0, 100).c_str()));
 		g_mismatches++; return;
 	}
+	// without the ' flag the locale's grouping must not matter: the same directive with the locale_options of an en_US-like
+	// locale handed to do_printf_ints has to produce the same bytes
+	if(c.fmt.find('\'') == std::string::npos && !informational && fr.out == exp) { // (only where the default-locale run is right: one defect, one report)
+		FriggResult fl = run_frigg(gf.data(), c.slots, false, false, true);
+		count("printf_directives_compared_with_locale_options");
+		if(!fl.panicked && fl.out != exp) {
+			case_detail("format \"%s\"", c.fmt.c_str());
+			violation("C19:printf:locale-options:" + c.key, strf("printf_format(\"%s\", %s) with locale_options(\".\", \",\", groups of 3) produced \"%s\", ISO C / glibc produces \"%s\" (no ' flag: grouping does not apply)", c.fmt.c_str(), c.desc.c_str(), fl.out.substr(0, 120).c_str(), exp.substr(0, 120).c_str()));
+			g_mismatches++;
+		}
+	}
 	if(fr.out != exp) {
 		if(informational) { count("info_b_conversion_mismatch"); return; }
 		case_detail("format \"%s\"", c.fmt.c_str());
